@@ -8,7 +8,7 @@ def main(argv):
     rep = vlib.Report(PID, 'other', argv)
     vlib.build_harness()
     th = rep.tier == 'thorough'
-    tracecheck.run(rep, PID, 'drive-lift', 'Lift', 'Lift_x.cfg', 40 if th else 8, [rep.seed * 100 + i for i in range(5 if th else 1)], 'lift', comp_key='Op', par=1)
+    tracecheck.run(rep, PID, 'drive-lift', 'Lift', 'Lift_x.cfg', 40 if th else 12, [rep.seed * 100 + i for i in range(5 if th else 1)], 'lift', comp_key='Op', par=1)
     rep.cov['explanation'] = ('The wrapped library functions (strconv, regexp, time, template, base64, JSON, gob, sort comparison, io.Reader) are UNINTERPRETED in the TLA+ specification: '
                               'TLA+ is the wrong tool for one pure text/numeric function. The harness calls the wrapped function directly on every input, interns values as integers and logs the graph; '
                               'TLC decides the stream-level laws of Lift.tla on the logged tables: out = lift(f, in) including the position of the Error, string/byte sibling agreement, '
